@@ -67,6 +67,10 @@ type pipeHarness struct {
 	displaced  map[string]map[string]string
 	byReput    map[string]map[string]bool
 	reputShape int // deletes of the displaced key while an exclusive subscriber listens
+	// concurrent unit: draws the jitter plans of the readers attached to a new subscriber
+	// (nil = no background readers)
+	readerPlans func() []readerPlan
+	judged      int
 }
 
 func newPipeHarness() *pipeHarness {
@@ -198,6 +202,11 @@ func (h *pipeHarness) probe() string {
 // changes nothing in the model (each key ends with its last event, each value with its
 // last registrant); for one that joined the watcher later it is genuinely new knowledge.
 func (h *pipeHarness) deliver(r string, evs []VerifEvent) {
+	if len(evs) > 1 {
+		for _, s := range h.subsOn(r) {
+			s.wild = true // several changes in one step: intermediate views exist
+		}
+	}
 	for _, ev := range evs {
 		if ev.Rev <= h.applied[r] {
 			h.replays++
@@ -277,6 +286,7 @@ func (h *pipeHarness) reloaded(rs []string) {
 		delete(h.owner, r) // a reload registers its keys at once: no order to track
 
 		for _, s := range h.subsOn(r) {
+			s.wild = true // a reload hands its changes over one by one
 			applyReloadToModel(s.m, snap)
 		}
 	}
@@ -360,6 +370,9 @@ func (h *pipeHarness) opSubscribe(exact, excl bool, nListeners int) (string, err
 		for i := 0; i < nListeners; i++ {
 			sub.AddListener(s.newListener())
 		}
+		if h.readerPlans != nil {
+			s.attachReaders(h.readerPlans())
+		}
 		h.subs = append(h.subs, s)
 		return nil
 	})
@@ -377,6 +390,10 @@ func (h *pipeHarness) closeSub(i int) error {
 		}
 	}
 	s.sub.Close()
+	s.haltReaders()
+	if s.rd != nil {
+		h.judged += s.rd.judged
+	}
 	h.subs = append(h.subs[:i], h.subs[i+1:]...)
 	if len(h.subsOn(s.rangeID)) == 0 {
 		delete(h.told, s.rangeID)
@@ -450,6 +467,9 @@ func (h *pipeHarness) cleanup() {
 			break
 		}
 	}
+	for _, s := range h.subs {
+		s.haltReaders()
+	}
 	for _, p := range h.pubs {
 		p.Stop()
 	}
@@ -460,10 +480,26 @@ func TestVerifC13Pipeline(t *testing.T) {
 	logx.Disable()
 	st := verifkit.New("pipeline")
 	defer st.Flush()
-	rapid.Check(t, func(t *rapid.T) {
+	rapid.Check(t, pipelineProperty(st, false))
+}
+
+// TestVerifC13PipelineConcurrent: the same histories while every subscriber's Values() is
+// polled by background goroutines (1-2 per subscriber; see c13_readers_test.go).
+func TestVerifC13PipelineConcurrent(t *testing.T) {
+	logx.Disable()
+	st := verifkit.New("pipeline-concurrent")
+	defer st.Flush()
+	rapid.Check(t, pipelineProperty(st, true))
+}
+
+func pipelineProperty(st *verifkit.Stats, concurrent bool) func(*rapid.T) {
+	return func(t *rapid.T) {
 		st.Eval()
 		h := newPipeHarness()
 		defer h.cleanup()
+		if concurrent {
+			h.readerPlans = func() []readerPlan { return drawReaderPlans(t, 2) }
+		}
 		do := func(msg string, err error) {
 			if errors.Is(err, ErrVerifWatchdog) {
 				st.Class("inconclusive-watchdog")
@@ -670,11 +706,21 @@ func TestVerifC13Pipeline(t *testing.T) {
 		if h.reputShape > 0 {
 			st.Class("excl-reput-older-key-then-delete-newer")
 		}
+		if concurrent {
+			for _, s := range h.subs {
+				s.haltReaders()
+				if msg := s.rd.judge(); msg != "" {
+					t.Fatalf("subscriber %s: %s\nhistory: %s", s.name, msg, h.log.String())
+				}
+				h.judged += s.rd.judged
+			}
+			st.ClassN("reader-samples-judged", h.judged)
+		}
 		if h.inPlace > 0 {
 			st.Class("with-value-change")
 			st.NonTrivial(h.log.String())
 		}
-	})
+	}
 }
 
 func sortedRangeIDs(m map[string][]VerifEvent) []string {
